@@ -151,7 +151,8 @@ def check_guards(ctx, cfg):
     for key, chain in ((K + "try_from_vec", ["alloc::vec::Vec::<T, A>::into_boxed_slice", K + "try_from_boxed_slice"]),
                        (K + "into_vec", [K + "into_boxed_slice", ("core::convert::From::from", "alloc::slice::<impl [T]>::into_vec", "core::convert::Into::into")]),
                        ("<GenericArray<$0,$1> as core::convert::TryFrom<alloc::boxed::Box<[$0],alloc::alloc::Global>>>::try_from",
-                        [("core::convert::From::from", "alloc::slice::<impl [T]>::into_vec", "core::convert::Into::into"), ("core::convert::TryInto::try_into", "core::convert::TryFrom::try_from")]),
+                        [("core::convert::From::from", "alloc::slice::<impl [T]>::into_vec", "core::convert::Into::into"),
+                         ("core::convert::TryInto::try_into", "core::convert::TryFrom::try_from", "<GenericArray<$0,$1> as core::convert::TryFrom<alloc::vec::Vec<$0,alloc::alloc::Global>>>::try_from")]),
                        ("<alloc::boxed::Box<[$0],alloc::alloc::Global> as core::convert::From<GenericArray<$0,$1>>>::from", ["alloc::boxed::Box::<T>::new", K + "into_boxed_slice"]),
                        ("<alloc::vec::Vec<$0,alloc::alloc::Global> as core::convert::From<GenericArray<$0,$1>>>::from",
                         [("<alloc::boxed::Box<[$0],alloc::alloc::Global> as core::convert::From<GenericArray<$0,$1>>>::from", "alloc::boxed::Box::<T>::new"),
